@@ -790,6 +790,38 @@ fn main() {
             h.join().expect("worker panicked");
         }
     }
+    // phase 4: the key store cannot hold a key at all, persistently (its path is a regular file / a dangling symbolic link):
+    // whatever the agent retries, the host must never receive an attest request
+    let mut unusable_runs = 0u64;
+    if std::env::var("VERIF_REPLAY").is_err() {
+        let mut hs = Vec::new();
+        for (vi, variant) in ["key-folder-path-is-a-regular-file", "key-folder-path-is-a-dangling-symbolic-link"].into_iter().enumerate() {
+            let slot = slots[vi].clone();
+            let out = out.clone();
+            unusable_runs += 1;
+            hs.push(std::thread::spawn(move || {
+                prepare(&slot, Scenario::FreshLatch, Fault::None, 950_000_000 + vi as u64);
+                let _ = std::fs::remove_dir_all(&slot.key_dir);
+                let _ = std::fs::remove_file(&slot.key_dir);
+                if vi == 0 {
+                    std::fs::write(&slot.key_dir, b"not a directory").unwrap();
+                } else {
+                    std::os::unix::fs::symlink(format!("{}-nowhere/keys", slot.key_dir), &slot.key_dir).unwrap();
+                }
+                let _ = run_child(&slot, None, None);
+                let s = slot.st.lock().unwrap();
+                if !s.attested_guids.is_empty() {
+                    out.lock().unwrap().push((format!("attested-while-the-key-store-cannot-hold-a-key:{variant}"), format!("{variant}: no key can be stored or read back, yet the host received attest requests for {:?} (acquisitions {})", s.attested_guids.iter().map(|g| g.0.clone()).collect::<Vec<_>>(), s.acquires), json!({"scenario": "FreshLatch", "key_store": variant})));
+                }
+                drop(s);
+                let _ = std::fs::remove_file(&slot.key_dir);
+            }));
+        }
+        for h in hs {
+            h.join().expect("worker panicked");
+        }
+    }
+    res.cov("unusable_key_store_runs", unusable_runs);
     res.cov("storage_fault_runs", storage_fault_runs);
     res.cov("combinations_not_enumerated_because_the_fault_free_run_failed", combos_without_window);
     evals += storage_fault_runs * 2;
@@ -828,7 +860,7 @@ fn main() {
         res.cov("exhaustive", hit == total);
     }
     res.cov("window_syscalls_per_combination", json!(windows.iter().map(|w| json!({"scenario": format!("{:?}", w.0), "fault": format!("{:?}", w.1), "first": w.2, "last": w.3})).collect::<Vec<_>>()));
-    res.cov("rule", format!("for each of {} (scenario, host fault) combinations: the fault-free run is traced twice with strace (syscalls {SYSCALLS}); then one run per kill point = every invocation (by syscall name and per-syscall index, as strace counts) from the first connect to the host up to process exit (+1..3), killed with SIGKILL on entry; after each kill: no torn file under a final key name, the host's latched key is complete in the store, the mock host never saw an attest for a key that was not complete on disk; then a fresh process on the same store must reach an accepted signed request, without a new acquisition when the latched key was in the store; then (storage faults) one run per file-system call of the window in which that call fails once with ENOSPC and the agent keeps running, with the same oracles, and: when the failed call was the read-only open of a key file, no attest for that key afterwards unless the file was opened successfully again in between (strace -ttt times against the mock's attest log); distinct = kill points at which the process was actually killed", combos.len()));
+    res.cov("rule", format!("for each of {} (scenario, host fault) combinations: the fault-free run is traced twice with strace (syscalls {SYSCALLS}); then one run per kill point = every invocation (by syscall name and per-syscall index, as strace counts) from the first connect to the host up to process exit (+1..3), killed with SIGKILL on entry; after each kill: no torn file under a final key name, the host's latched key is complete in the store, the mock host never saw an attest for a key that was not complete on disk; then a fresh process on the same store must reach an accepted signed request, without a new acquisition when the latched key was in the store; then (storage faults) one run per file-system call of the window in which that call fails once with ENOSPC and the agent keeps running, with the same oracles, and: when the failed call was the read-only open of a key file, no attest for that key afterwards unless the file was opened successfully again in between (strace -ttt times against the mock's attest log); then two runs in which the key folder's path is a regular file / a dangling symbolic link for good (no attest may ever be sent); distinct = kill points at which the process was actually killed", combos.len()));
     res.sample(json!({"scenario": "FreshLatch", "host_fault": "None", "window": windows.first().map(|w| w.4.iter().skip(w.2.saturating_sub(1) as usize).take(12).cloned().collect::<Vec<_>>())}));
     res.assume("process death = SIGKILL on syscall entry; power loss (page cache, metadata ordering) is not in the statement");
     res.assume("single-threaded subject (current-thread runtime, paused clock): the syscall sequence of the window is deterministic (compared between two fault-free runs)");
